@@ -4,7 +4,9 @@ import (
 	"bytes"
 	"encoding/binary"
 	"encoding/json"
+	"errors"
 	"fmt"
+	"github.com/hashicorp/raft-wal/segment"
 	"math"
 	"os"
 	"os/exec"
@@ -1641,6 +1643,98 @@ func poolStress(seed uint64, iters int) (reads int, viols []Violation) {
 	return reads + int(n), viols
 }
 
+// flakyCodec: the built-in codec under an external ID; every `every`-th Decode fails with errFlakyDecode (a transient
+// failure of a custom codec) before looking at the bytes.
+type flakyCodec struct {
+	wal.BinaryCodec
+	n     int64
+	every int64
+}
+
+var errFlakyDecode = errors.New("flaky codec: transient decode failure")
+
+func (c *flakyCodec) ID() uint64 { return wal.FirstExternalCodecID + 77 }
+func (c *flakyCodec) Decode(bs []byte, l *raft.Log) error {
+	if atomic.AddInt64(&c.n, 1)%c.every == 0 {
+		return errFlakyDecode
+	}
+	return c.BinaryCodec.Decode(bs, l)
+}
+
+// poolStressFlakyDecode: the error path of GetLog. With a codec whose Decode fails now and then, overlapping readers of
+// small (pooled-buffer) entries must each get the codec's error or exactly the stored entry — a read buffer handed
+// back twice on the error path would be given to two later readers at once (C12, C06).
+func poolStressFlakyDecode(seed uint64, iters int) (reads int, viols []Violation) {
+	r := NewRng(seed ^ 0x9f1a)
+	d := simfs.New()
+	d.Record = false
+	codec := &flakyCodec{every: 5}
+	w, err := wal.Open("d", wal.WithCodec(codec), wal.WithLogger(hclog.NewNullLogger()), wal.WithSegmentSize(1<<20),
+		wal.WithSegmentFiler(segment.NewFiler("d", d)), wal.WithMetaStore(&simfs.Meta{D: d}))
+	if err != nil {
+		return 0, []Violation{{Property: "C12", What: "a WAL with an external codec ID does not open", Detail: err.Error()}}
+	}
+	defer w.Close()
+	var want []*raft.Log
+	for i := 0; i < 24; i++ {
+		l := &raft.Log{Index: uint64(i + 1), Term: uint64(7 + i), Type: raft.LogCommand, Data: r.Bytes(40 + 97*i)}
+		want = append(want, l)
+		if err := w.StoreLogs([]*raft.Log{l}); err != nil {
+			return 0, []Violation{{Property: "C12", What: "StoreLogs failed", Detail: err.Error()}}
+		}
+	}
+	desc := []string{"24 entries below 64 KiB; codec = BinaryCodec under an external ID whose Decode fails every 5th call"}
+	// a run of failing reads first (sequential), then overlapping readers
+	for i := 0; i < 40; i++ {
+		var l raft.Log
+		w.GetLog(uint64(1+i%len(want)), &l)
+		reads++
+	}
+	var wg sync.WaitGroup
+	var vmu sync.Mutex
+	var n int64
+	G := 2 * runtime.GOMAXPROCS(0)
+	if G < 8 {
+		G = 8
+	}
+	for g := 0; g < G; g++ {
+		wg.Add(1)
+		gr := r.Fork()
+		go func() {
+			defer wg.Done()
+			defer func() {
+				if x := recover(); x != nil {
+					vmu.Lock()
+					viols = append(viols, Violation{Property: "C06", What: "a concurrent read panicked", Detail: fmt.Sprint(x), Ops: desc})
+					vmu.Unlock()
+				}
+			}()
+			for i := 0; i < iters; i++ {
+				k := gr.Intn(len(want))
+				var l raft.Log
+				err := w.GetLog(uint64(k+1), &l)
+				atomic.AddInt64(&n, 1)
+				if errors.Is(err, errFlakyDecode) {
+					continue
+				}
+				if err != nil || l.Index != want[k].Index || l.Term != want[k].Term || !bytes.Equal(l.Data, want[k].Data) {
+					vmu.Lock()
+					if len(viols) < 2 {
+						det := fmt.Sprintf("GetLog(%d): err=%v, returned index %d term %d len %d (stored: term %d len %d)", k+1, err, l.Index, l.Term, len(l.Data), want[k].Term, len(want[k].Data))
+						ops := append(desc, fmt.Sprintf("%d goroutines reading random indexes concurrently, no writer", G))
+						viols = append(viols, Violation{Property: "C12", What: "after reads whose Decode failed, GetLog returns something other than the stored entry while other reads reuse pooled buffers", Detail: det, Ops: ops})
+						viols = append(viols, Violation{Property: "C06", What: "an entry that stays in the log was not returned intact to a concurrent reader (after reads whose Decode failed)", Detail: det, Ops: ops})
+					}
+					vmu.Unlock()
+					return
+				}
+			}
+		}()
+	}
+	wg.Wait()
+	return reads + int(n), viols
+}
+
 func init() {
 	extraCommands["stablesub"] = func(args []string) int {
 		n, viols := stableConcReal(int(atoiU(args[0])))
@@ -1748,6 +1842,17 @@ func suiteConc(seed uint64, tier string) *Report {
 		rep.Violations = append(rep.Violations, viols...)
 	}
 	{
+		iters := 20000
+		if tier == "thorough" {
+			iters = 400000
+		}
+		n, viols := sealedReadStress(seed, iters)
+		rep.Ops += n
+		rep.Dist["sealed-read-stress"] = n
+		rep.Cases++
+		rep.Violations = append(rep.Violations, viols...)
+	}
+	{
 		n, viols := stableGetVsSet()
 		rep.Ops += n
 		rep.Dist["stable-get-vs-set"] = n
@@ -1775,6 +1880,11 @@ func suiteConc(seed uint64, tier string) *Report {
 		rep.Dist["pool-boundary-reads"] = n
 		rep.Cases++
 		rep.Violations = append(rep.Violations, viols...)
+		n2, viols2 := poolStressFlakyDecode(seed, iters*4)
+		rep.Ops += n2
+		rep.Dist["pool-reads-flaky-decode"] = n2
+		rep.Cases++
+		rep.Violations = append(rep.Violations, viols2...)
 	}
 	{
 		rounds := 6
@@ -1908,6 +2018,78 @@ func stableGetVsSet() (calls int, viols []Violation) {
 		}
 	}
 	return calls, viols
+}
+
+// sealedReadStress: after a reopen, sealed segments are served through their on-disk index block (before it, the former
+// tail's in-memory offsets serve them). Readers on every core read random indexes of the same few sealed segments at the
+// same time; nothing is being written: every read must return exactly the entry stored at that index (C06, C12).
+func sealedReadStress(seed uint64, iters int) (reads int, viols []Violation) {
+	d := simfs.New()
+	d.Record = false
+	w, err := openWalOn(d, 512, nil)
+	if err != nil {
+		return 0, nil
+	}
+	const n = 48
+	want := map[uint64]string{}
+	for i := uint64(1); i <= n; i++ {
+		data := fmt.Sprintf("sealed-entry-%04d-%s", i, strings.Repeat(string(rune('a'+i%26)), int(10+i%23)))
+		if err := w.StoreLogs([]*raft.Log{{Index: i, Term: 1 + i%3, Data: []byte(data)}}); err != nil {
+			return 0, nil
+		}
+		want[i] = data
+		w.DeleteRange(math.MaxUint64, math.MaxUint64)
+	}
+	w.Close()
+	if w, err = openWalOn(d, 512, nil); err != nil {
+		return 0, []Violation{{Property: "C06", What: "reopen failed", Case: "sealed-read-stress", Detail: err.Error()}}
+	}
+	defer w.Close()
+	readers := runtime.GOMAXPROCS(0) - 1
+	if readers < 2 {
+		readers = 2
+	}
+	if readers > 12 {
+		readers = 12
+	}
+	var vmu sync.Mutex
+	var wg sync.WaitGroup
+	var total int64
+	for r := 0; r < readers; r++ {
+		wg.Add(1)
+		go func(r int) {
+			defer wg.Done()
+			rng := NewRng(seed*131 + uint64(r))
+			defer func() {
+				if x := recover(); x != nil {
+					vmu.Lock()
+					viols = append(viols, Violation{Property: "C06", What: "a read of a sealed segment panicked under concurrent reads", Case: "sealed-read-stress", Detail: fmt.Sprint(x)})
+					vmu.Unlock()
+				}
+			}()
+			for k := 0; k < iters; k++ {
+				// a narrow window of indexes: the readers collide on the same segments
+				idx := uint64(1 + rng.Intn(16))
+				var l raft.Log
+				err := w.GetLog(idx, &l)
+				atomic.AddInt64(&total, 1)
+				if err != nil || l.Index != idx || string(l.Data) != want[idx] {
+					vmu.Lock()
+					if len(viols) < 3 {
+						for _, p := range []string{"C06", "C12"} {
+							viols = append(viols, Violation{Property: p, What: "concurrent reads of a sealed segment (after a reopen, nothing being written): a read did not return the entry stored at its index",
+								Case: "sealed-read-stress", Ops: []string{fmt.Sprintf("48 entries in 512-byte segments, Close, Open, %d readers x %d GetLog of indexes 1..16", readers, iters)},
+								Detail: fmt.Sprintf("GetLog(%d): err=%v, returned index %d data %q", idx, err, l.Index, clipS(string(l.Data)))})
+						}
+					}
+					vmu.Unlock()
+					return
+				}
+			}
+		}(r)
+	}
+	wg.Wait()
+	return int(total), viols
 }
 
 // refHammer: index-only readers (FirstIndex / LastIndex: nothing but the closed check, the state reference and two
